@@ -19,6 +19,23 @@ Clauses (ids):
                            object, written through
   C20.gauss_quant.monotone / .affine / .accuracy (1e-6 standard deviations vs mpmath, min(p,1-p) >= 1e-20)
   C20.angular.inverse / C20.angular.formula (rtol 1e-12)
+  C20.window.repeat        (sessions) "Every window function returns exactly `width` non-negative samples for any width:
+                           the numpy ... shape divided by its area ... or, for GammaWindow, the time-reversed gamma
+                           probability density": EVERY request is a return of a window function, so the clauses above are
+                           evaluated on each answer of a sequence of requests -- the same width twice in a row on one
+                           object, interleaved with other widths, on fresh objects, on objects made by the alias factory
+                           (every documented alias; alias_factory_subclass_from_arg with a string and with a mapping), on
+                           > 64 distinct widths and then the same ones again.  Arrays handed out earlier keep their values
+                           while later requests are served (they ARE the returned samples; id
+                           C20.window.returned_array_changed), and after the caller has overwritten every array it was
+                           given the next answers are still right (id C20.window.repeat_after_write).  A clause failing on
+                           the first request ever made for a width in the process keeps its own id; on a later request it
+                           is reported as C20.window.repeat with the request history.
+                           Case {"check": "window_session", "window": name | "gamma"(+order, peak), "requests":
+                           [[how, width], ...]}, how = "same" | "fresh" | "alias:<alias>" | "mapping:<alias>".
+  circshift_fourier cases carry "repeat": the call is made twice on equal inputs; both outputs must satisfy
+  C20.circshift.shift / .dtype / .copy and the first output must not be changed by the second call.
+  gauss_quant accuracy evaluates every probability twice (second answer under the same 1e-6 clause).
 """
 import math
 import warnings
@@ -71,6 +88,43 @@ def _silence():
 # windows
 
 
+def _verify_np(name, width, got, one, fails, stats):
+    """all numpy-window clauses on ONE answer `got` for `width`; appends to fails; -> None"""
+    cls_name, np_name, c = NP_WINDOWS[name]
+    np_fn = getattr(np, np_name)
+    stats["n"] += 1
+    if not isinstance(got, np.ndarray) or got.shape != (width,) or got.dtype.kind != "f":
+        fails.append(("C20.window.length", one, f"shape {getattr(got, 'shape', None)} dtype {getattr(got, 'dtype', None)}, wanted ({width},) float"))
+        return
+    if width == 0:
+        return
+    if not np.all(np.isfinite(got)):
+        fails.append(("C20.window.numpy_shape", one, "non-finite samples"))
+        return
+    area = c * max(1, width - 1)
+    ref = np_fn(width)
+    neg = got < 0
+    if neg.any():
+        stats["min"] = min(stats["min"], float(got.min()))
+        excus = neg & (ref < 0) & (got >= -1e-16)
+        stats["neg_from_numpy"] += int(excus.sum())
+        if (neg & ~excus).any():
+            i = int(np.flatnonzero(neg & ~excus)[0])
+            fails.append(("C20.window.nonneg", one, f"sample {i} = {got[i]!r} (numpy's own sample is {ref[i]!r})"))
+    want = ref / area
+    if not np.allclose(got, want, rtol=RTOL, atol=1e-18):
+        i = int(np.argmax(np.abs(got - want)))
+        fails.append(("C20.window.numpy_shape", one, f"sample {i} = {got[i]!r}, numpy.{np_name}({width})[{i}]/({c}*max(1,width-1)) = {want[i]!r}"))
+    want2 = _closed_form(name, width) / area
+    if not np.allclose(got, want2, rtol=RTOL, atol=1e-15 / area):
+        i = int(np.argmax(np.abs(got - want2)))
+        fails.append(("C20.window.closed_form", one, f"sample {i} = {got[i]!r}, closed form gives {want2[i]!r}"))
+    if width >= 2:
+        s = float(math.fsum(got))
+        if not abs(s - 1.0) <= 2.0 / width:
+            fails.append(("C20.window.unit_sum", one, f"samples sum to {s!r}; |sum-1| > 2/{width}"))
+
+
 def _check_np_window(case):
     from pydrobert.speech import filters
 
@@ -79,46 +133,16 @@ def _check_np_window(case):
     widths = range(case["w_lo"], case["w_hi"] + 1) if "w_lo" in case else [case["width"]]
     fails, stats = [], {"neg_from_numpy": 0, "min": 0.0, "n": 0}
     win = getattr(filters, cls_name)()
-    np_fn = getattr(np, np_name)
     for width in widths:
         w_arg = np.int64(width) if case.get("np_int") else int(width)
         one = dict(check="np_window", window=name, width=int(width), np_int=bool(case.get("np_int")))
+        _REQUESTS[(name, None, None, int(width))] = _REQUESTS.get((name, None, None, int(width)), 0) + 1
         try:
             got = win.get_impulse_response(w_arg)
         except Exception as e:  # noqa
             fails.append(("C20.window.length", one, f"raised {type(e).__name__}: {e}"))
             continue
-        stats["n"] += 1
-        if not isinstance(got, np.ndarray) or got.shape != (width,) or got.dtype.kind != "f":
-            fails.append(("C20.window.length", one, f"shape {getattr(got, 'shape', None)} dtype {getattr(got, 'dtype', None)}, wanted ({width},) float"))
-            continue
-        if width == 0:
-            continue
-        if not np.all(np.isfinite(got)):
-            fails.append(("C20.window.numpy_shape", one, "non-finite samples"))
-            continue
-        area = c * max(1, width - 1)
-        ref = np_fn(width)
-        neg = got < 0
-        if neg.any():
-            stats["min"] = min(stats["min"], float(got.min()))
-            excus = neg & (ref < 0) & (got >= -1e-16)
-            stats["neg_from_numpy"] += int(excus.sum())
-            if (neg & ~excus).any():
-                i = int(np.flatnonzero(neg & ~excus)[0])
-                fails.append(("C20.window.nonneg", one, f"sample {i} = {got[i]!r} (numpy's own sample is {ref[i]!r})"))
-        want = ref / area
-        if not np.allclose(got, want, rtol=RTOL, atol=1e-18):
-            i = int(np.argmax(np.abs(got - want)))
-            fails.append(("C20.window.numpy_shape", one, f"sample {i} = {got[i]!r}, numpy.{np_name}({width})[{i}]/({c}*max(1,width-1)) = {want[i]!r}"))
-        want2 = _closed_form(name, width) / area
-        if not np.allclose(got, want2, rtol=RTOL, atol=1e-15 / area):
-            i = int(np.argmax(np.abs(got - want2)))
-            fails.append(("C20.window.closed_form", one, f"sample {i} = {got[i]!r}, closed form gives {want2[i]!r}"))
-        if width >= 2:
-            s = float(math.fsum(got))
-            if not abs(s - 1.0) <= 2.0 / width:
-                fails.append(("C20.window.unit_sum", one, f"samples sum to {s!r}; |sum-1| > 2/{width}"))
+        _verify_np(name, int(width), got, one, fails, stats)
         if len(fails) > 8:
             break
     return fails, stats["n"] > 0 and max(widths) >= 2, stats
@@ -134,6 +158,44 @@ def _gamma_closed(order, peak, width):
     return out
 
 
+def _verify_gamma(order, peak, width, got, one, fails, stats, do_argmax=True):
+    """all GammaWindow clauses on ONE answer `got` for `width`"""
+    stats["n"] += 1
+    if not isinstance(got, np.ndarray) or got.shape != (width,) or got.dtype.kind != "f":
+        fails.append(("C20.gamma.length", one, f"shape {getattr(got, 'shape', None)} dtype {getattr(got, 'dtype', None)}, wanted ({width},) float"))
+        return
+    if width == 0:
+        return
+    if not np.all(np.isfinite(got)) or (got < 0).any():
+        fails.append(("C20.gamma.nonneg", one, f"negative or non-finite sample (min {np.nanmin(got)!r})"))
+        return
+    if width >= 2 and order >= 2:
+        want = _gamma_closed(order, peak, width)
+        # relative 1e-9 with an absolute floor of 1e-15 of the window's peak: the library forms
+        # t^(n-1) * exp(-a t + ln c) and the exponential alone can be subnormal for samples ~1e-289
+        den = np.abs(want) + 1e-6 * float(np.max(want))
+        rel = float(np.max(np.abs(got - want) / den))
+        stats["worst_rel"] = max(stats["worst_rel"], rel)
+        if not rel <= RTOL:
+            i = int(np.argmax(np.abs(got - want) / den))
+            fails.append(("C20.gamma.values", one, f"sample {i} (t={width-1-i}) = {got[i]!r}, reversed gamma density gives {want[i]!r}"))
+        if do_argmax and width >= 8:
+            am = int(np.argmax(got))
+            pw = peak * width
+            if abs(am - pw) > 1:
+                stats["literal_viol"] += 1
+            if not (pw - 2 < am <= pw):
+                fails.append(("C20.gamma.argmax", one, f"arg-max {am} is not within (peak*width-2, peak*width] = ({pw-2}, {pw}]"))
+    elif width >= 2 and order == 1:
+        # a e^{-a t}: the last sample (t=0) is a, consecutive ratios are e^{-a}
+        a = float(got[-1])
+        t = np.arange(width - 1, -1, -1, dtype=float)
+        want = a * np.exp(-a * t)
+        if not (a > 0 and np.allclose(got, want, rtol=RTOL, atol=0.0)):
+            i = int(np.argmax(np.abs(got - want)))
+            fails.append(("C20.gamma.values", one, f"order 1: sample {i} = {got[i]!r}, a e^(-a t) with a = last sample {a!r} gives {want[i]!r}"))
+
+
 def _check_gamma(case):
     from pydrobert.speech import filters
 
@@ -146,48 +208,168 @@ def _check_gamma(case):
         fails.append(("C20.gamma.values", case, "order / peak attributes not stored"))
     for width in widths:
         one = dict(check="gamma", order=order, peak=peak, width=int(width), argmax=do_argmax)
+        _REQUESTS[("gamma", order, peak, int(width))] = _REQUESTS.get(("gamma", order, peak, int(width)), 0) + 1
         try:
             got = win.get_impulse_response(int(width))
         except Exception as e:  # noqa
             fails.append(("C20.gamma.length", one, f"raised {type(e).__name__}: {e}"))
             continue
-        stats["n"] += 1
-        if not isinstance(got, np.ndarray) or got.shape != (width,) or got.dtype.kind != "f":
-            fails.append(("C20.gamma.length", one, f"shape {getattr(got, 'shape', None)} dtype {getattr(got, 'dtype', None)}, wanted ({width},) float"))
-            continue
-        if width == 0:
-            continue
-        if not np.all(np.isfinite(got)) or (got < 0).any():
-            fails.append(("C20.gamma.nonneg", one, f"negative or non-finite sample (min {np.nanmin(got)!r})"))
-            continue
-        if width >= 2 and order >= 2:
-            want = _gamma_closed(order, peak, width)
-            # relative 1e-9 with an absolute floor of 1e-15 of the window's peak: the library forms
-            # t^(n-1) * exp(-a t + ln c) and the exponential alone can be subnormal for samples ~1e-289
-            den = np.abs(want) + 1e-6 * float(np.max(want))
-            rel = float(np.max(np.abs(got - want) / den))
-            stats["worst_rel"] = max(stats["worst_rel"], rel)
-            if not rel <= RTOL:
-                i = int(np.argmax(np.abs(got - want) / den))
-                fails.append(("C20.gamma.values", one, f"sample {i} (t={width-1-i}) = {got[i]!r}, reversed gamma density gives {want[i]!r}"))
-            if do_argmax and width >= 8:
-                am = int(np.argmax(got))
-                pw = peak * width
-                if abs(am - pw) > 1:
-                    stats["literal_viol"] += 1
-                if not (pw - 2 < am <= pw):
-                    fails.append(("C20.gamma.argmax", one, f"arg-max {am} is not within (peak*width-2, peak*width] = ({pw-2}, {pw}]"))
-        elif width >= 2 and order == 1:
-            # a e^{-a t}: the last sample (t=0) is a, consecutive ratios are e^{-a}
-            a = float(got[-1])
-            t = np.arange(width - 1, -1, -1, dtype=float)
-            want = a * np.exp(-a * t)
-            if not (a > 0 and np.allclose(got, want, rtol=RTOL, atol=0.0)):
-                i = int(np.argmax(np.abs(got - want)))
-                fails.append(("C20.gamma.values", one, f"order 1: sample {i} = {got[i]!r}, a e^(-a t) with a = last sample {a!r} gives {want[i]!r}"))
+        _verify_gamma(order, peak, int(width), got, one, fails, stats, do_argmax)
         if len(fails) > 8:
             break
     return fails, stats["n"] > 0 and max(widths) >= 2, stats
+
+
+# ------------------------------------------------------------------------------------------
+# sessions: many requests to the window functions, see C20.window.repeat
+
+_ALIASES = {  # the aliases documented on the classes (`aliases = {...}  #:`)
+    "bartlett": ["bartlett", "triangular", "tri"],
+    "blackman": ["blackman", "black"],
+    "hamming": ["hamming"],
+    "hann": ["hanning", "hann"],
+    "gamma": ["gamma"],
+}
+
+
+_REQUESTS = {}  # (window, order, peak, width) -> number of requests made so far in this process (all case kinds)
+
+
+def _check_window_session(case):
+    from pydrobert.speech import filters
+    from pydrobert.speech.alias import alias_factory_subclass_from_arg
+
+    name = case["window"]
+    gamma = name == "gamma"
+    order, peak = int(case.get("order", 4)), float(case.get("peak", 0.75))
+    fails, raw = [], []
+    stats = {"neg_from_numpy": 0, "min": 0.0, "n": 0, "literal_viol": 0, "worst_rel": 0.0, "repeats": 0}
+
+    def make(how):
+        if how.startswith("alias:"):
+            if gamma:
+                return filters.WindowFunction.from_alias(how[6:], order=order, peak=peak)
+            return alias_factory_subclass_from_arg(filters.WindowFunction, how[6:])
+        if how.startswith("mapping:"):
+            d = {"name": how[8:]}
+            if gamma:
+                d.update(order=order, peak=peak)
+            return alias_factory_subclass_from_arg(filters.WindowFunction, d)
+        return filters.GammaWindow(order, peak) if gamma else getattr(filters, NP_WINDOWS[name][0])()
+
+    obj = make("fresh")
+    held, seen, history = [], {}, []
+
+    def request(how, width, tag="", clause_after=None):
+        w = obj if how == "same" else make(how)
+        nth = seen.get(width, 0) + 1
+        seen[width] = nth
+        if nth > 1:
+            stats["repeats"] += 1
+        gkey = (name, order if gamma else None, peak if gamma else None, int(width))
+        _REQUESTS[gkey] = total = _REQUESTS.get(gkey, 0) + 1
+        where = (
+            f"[request #{len(history) + 1}{tag}: width {width} via {how!r}, request no. {nth} for this width in the session"
+            f"{'' if total == nth else f' (no. {total} in this process)'}; before it: {', '.join(f'{h}({x})' for h, x in history[-4:]) or 'nothing'}]"
+        )
+        # the case to replay: the requests up to and including this one (a request of the second round: that request
+        # alone -- asked, overwritten by the caller, asked again)
+        one = dict(case, requests=[[how, int(width)]] if clause_after else [list(r) for r in case["requests"][: len(history) + 1]])
+        local = []
+        try:
+            got = w.get_impulse_response(int(width))
+        except Exception as e:  # noqa
+            fails.append(("C20.gamma.length" if gamma else "C20.window.length", one, f"{where} raised {type(e).__name__}: {e}"))
+            history.append((how, width))
+            return
+        if gamma:
+            _verify_gamma(order, peak, int(width), got, one, local, stats, do_argmax=order >= 2 and peak >= 0.5)
+        else:
+            _verify_np(name, int(width), got, one, local, stats)
+        for c, o, m in local:
+            # a clause that fails on the very first answer for this width is reported under its own id; on a later
+            # answer it is a matter of history
+            first_ever = total == 1 and clause_after is None
+            cl = c if first_ever else (clause_after or "C20.window.repeat")
+            fails.append((cl, o, f"{where} {'' if first_ever else c + ': '}{m}"))
+        if isinstance(got, np.ndarray) and got.ndim == 1:
+            held.append((f"request #{len(history) + 1} (width {width} via {how!r})", got, got.copy()))
+        history.append((how, width))
+
+    changed = False
+    for how, width in case["requests"]:
+        request(str(how), int(width))
+        # "returns ... samples": what was returned earlier still has the values it was returned with
+        if not changed:
+            for d, a, c in held[:-1]:
+                if a.shape != c.shape or a.tobytes() != c.tobytes():
+                    i = int(np.argmax(np.abs(a - c))) if a.shape == c.shape and a.size else 0
+                    changed = True
+                    fails.append(
+                        (
+                            "C20.window.returned_array_changed",
+                            dict(case, requests=[list(r) for r in case["requests"][: len(history)]]),
+                            f"the array returned by {d} was changed while request #{len(history)} (width {width} via {how!r}) was served (sample {i}: {c[i] if c.size else None!r} -> {a[i] if a.size else None!r})",
+                        )
+                    )
+                    break
+        if len(fails) > 6:
+            break
+    # the caller owns what it was given: overwrite everything, then ask again (only when all went well so far)
+    if not fails:
+        n_held = len(held)
+        for d, a, c in held:
+            if a.flags.writeable and a.size:
+                a[...] = np.nan
+        again = []
+        for how, width in case["requests"]:
+            if (str(how), int(width)) not in again:
+                again.append((str(how), int(width)))
+        for how, width in again[:12]:
+            request(how, width, tag=" (after the caller overwrote every array it had been given with NaN)", clause_after="C20.window.repeat_after_write")
+            if len(fails) > 6:
+                break
+        # hygiene: put the original values back, so that a library-side cache shared between objects is not left
+        # poisoned by this harness for the cases that follow
+        for d, a, c in held[:n_held]:
+            if a.flags.writeable and a.size:
+                a[...] = c
+    out, keys = [], set()
+    for c, o, m in fails:
+        if c not in keys:
+            keys.add(c)
+            out.append((c, o, m))
+    return out, stats["repeats"] > 0 and max(int(w) for _, w in case["requests"]) >= 2, stats
+
+
+def _window_session_cases(tier, seed):
+    rng = _common.make_rng(seed, "c20:sessions")
+    cases = []
+    targets = [("bartlett", {}), ("hann", {}), ("hamming", {}), ("blackman", {}), ("gamma", {"order": 4, "peak": 0.75}), ("gamma", {"order": 2, "peak": 0.5}), ("gamma", {"order": 1, "peak": 0.25})]
+    for name, extra in targets:
+        al = _ALIASES[name]
+        base = [1, 3, 400, 25, 2, 8, 401]
+        seeded = [int(x) for x in rng.integers(2, 600 if tier == "quick" else 3000, 3 if tier == "quick" else 12)]
+        # 1. the same width twice in a row on one object; 2. interleaved with other widths
+        reqs = []
+        for w in base + seeded:
+            reqs += [["same", w], ["same", w]]
+        ws = base + seeded
+        reqs += [["same", w] for w in ws] + [["same", w] for w in reversed(ws)]
+        cases.append(dict({"check": "window_session", "window": name, "requests": reqs}, **extra))
+        # 3. fresh objects and the alias factory (string and mapping), mixed with the session's object
+        reqs = []
+        for w in [400, 1, 7] + seeded[:2]:
+            reqs += [["fresh", w], ["fresh", w]]
+            for a in al:
+                reqs += [["alias:" + a, w], ["mapping:" + a, w]]
+            reqs += [["same", w], ["fresh", w], ["same", w]]
+        cases.append(dict({"check": "window_session", "window": name, "requests": reqs}, **extra))
+        # 4. more distinct widths than any plausible small cache holds, then the same ones again, and the first few a third time
+        span = list(range(0, 90 if tier == "quick" else 300))
+        reqs = [["same", w] for w in span] + [["fresh" if w % 3 == 0 else "same", w] for w in span] + [["same", w] for w in span[:10]]
+        cases.append(dict({"check": "window_session", "window": name, "requests": reqs}, **extra))
+    return cases
 
 
 # ------------------------------------------------------------------------------------------
@@ -266,6 +448,32 @@ def _check_circshift(case):
         if out is not seg:
             fails.append(("C20.circshift.copy", case, "copy=False with complex128 input did not return the same object"))
     nontrivial = n > 0 and (int(shift) % D != 0) and float(np.max(np.abs(x_in))) > 0
+    if case.get("repeat") and not fails:
+        # the same call once more on an equal input: "for every ... the inverse DFT of circshift_fourier's output is the
+        # inverse DFT of its input circularly shifted" holds for the second call as for the first, and the first
+        # output keeps its values
+        seg2 = before.copy()
+        first = out.copy()
+        try:
+            cm = _silence()
+            try:
+                out2 = util.circshift_fourier(seg2, shift_arg, **kwargs)
+            finally:
+                cm.__exit__(None, None, None)
+        except Exception as e:  # noqa
+            return [("C20.circshift.defined", case, f"second identical call raised {type(e).__name__}: {e}")], nontrivial, stats
+        if not isinstance(out2, np.ndarray) or out2.shape != seg.shape or out2.dtype != np.complex128:
+            fails.append(("C20.circshift.dtype", case, f"second identical call: result shape/dtype {getattr(out2, 'shape', None)}/{getattr(out2, 'dtype', None)}"))
+            return fails, nontrivial, stats
+        err2 = float(np.max(np.abs(np.fft.ifft(_embed(out2, start, D)) - want))) / scale
+        if not err2 <= RTOL:
+            fails.append(("C20.circshift.shift", case, f"second identical call: ifft(out) differs from roll(ifft(in), {shift}) by {err2:.3g} of max|x| (first call: {err:.3g})"))
+        if out.tobytes() != first.tobytes():
+            fails.append(("C20.circshift.shift", case, "the output of the first call was changed by a second call on another array"))
+        if is_copy and (seg2.tobytes() != before.tobytes()):
+            fails.append(("C20.circshift.copy", case, "second identical call: input modified although copy=True"))
+        if n and (np.shares_memory(out2, out) or (is_copy and np.shares_memory(out2, seg2))):
+            fails.append(("C20.circshift.copy", case, "second identical call: result shares memory with the first result / its own input"))
     return fails, nontrivial, stats
 
 
@@ -409,12 +617,14 @@ def _check_gauss(case):
         for p in ps:
             want = _mp_quantile(float(p))
             for nm, fn in fns:
-                got = float(fn(float(p)))
-                err = abs(float(got - want)) if math.isfinite(got) else float("inf")
-                if err > worst:
-                    worst, wp = err, float(p)
-                if not err <= 1e-6:
-                    fails.append(("C20.gauss_quant.accuracy", dict(case, points=[float(p)]), f"{nm}({p!r}) = {got!r}, normal quantile is {float(want)!r} (error {err:.3g} standard deviations)"))
+                for nth in (1, 2):  # every probability is asked twice; each answer is under the clause
+                    got = float(fn(float(p)))
+                    err = abs(float(got - want)) if math.isfinite(got) else float("inf")
+                    if err > worst:
+                        worst, wp = err, float(p)
+                    if not err <= 1e-6:
+                        fails.append(("C20.gauss_quant.accuracy", dict(case, points=[float(p)]), f"{nm}({p!r}) = {got!r}{' on the second identical call' if nth == 2 else ''}, normal quantile is {float(want)!r} (error {err:.3g} standard deviations)"))
+                        break
             if len(fails) > 4:
                 break
         stats["worst"], stats["worst_p"], stats["n"] = worst, wp, len(ps)
@@ -463,6 +673,8 @@ def _check_case(case):
         return _check_np_window(case)
     if chk == "gamma":
         return _check_gamma(case)
+    if chk == "window_session":
+        return _check_window_session(case)
     if chk == "circshift":
         return _check_circshift(case)
     if chk.startswith("gq."):
@@ -483,7 +695,7 @@ def _circ_cases(tier, seed):
 
     def add(n, start, D, shift, copy, dtype, shift_type="int"):
         nonlocal k
-        cases.append({"check": "circshift", "n": n, "start_idx": start, "dft_size": D, "shift": shift, "copy": copy, "dtype": dtype, "shift_type": shift_type, "seed": seed, "salt": k})
+        cases.append({"check": "circshift", "n": n, "start_idx": start, "dft_size": D, "shift": shift, "copy": copy, "dtype": dtype, "shift_type": shift_type, "seed": seed, "salt": k, "repeat": True})
         k += 1
 
     add(8, 0, "omit", 3, "omit", "complex128")
@@ -523,6 +735,7 @@ def _enumerate(tier, seed):
     cases += _circ_cases(tier, seed)[:4]
     for name in NP_WINDOWS:
         cases.append({"check": "np_window", "window": name, "w_lo": 0, "w_hi": 64})
+    cases += _window_session_cases(tier, seed)
     cases.append({"check": "gq.monotone"})
     cases.append({"check": "gq.affine", "seed": seed, "salt": 0})
     cases.append({"check": "angular", "seed": seed, "salt": 0, "n": 50 if tier == "quick" else 2000})
@@ -554,7 +767,7 @@ def _enumerate(tier, seed):
 def run(tier: str, seed: int) -> dict:
     _common.use_repo()
     col = _common.Collector(PROPERTY, tier, seed, budget_s=50 if tier == "quick" else 540)
-    agg = {"neg": 0, "min": 0.0, "literal": 0, "gamma_rel": 0.0, "circ": 0.0, "nwin": 0, "ngam": 0}
+    agg = {"neg": 0, "min": 0.0, "literal": 0, "gamma_rel": 0.0, "circ": 0.0, "nwin": 0, "ngam": 0, "nsess": 0, "nsess_req": 0, "nsess_rep": 0}
     for case in _enumerate(tier, seed):
         if col.out_of_time() or col.too_many_failures():
             col.note("stopped early (time or failure cap)")
@@ -565,7 +778,12 @@ def run(tier: str, seed: int) -> dict:
             fails, nontrivial, stats = [("C20.exception", case, f"{type(e).__name__}: {e}")], False, {}
         chk = case["check"]
         col.case(case, nontrivial=nontrivial, sample=case if chk in ("circshift", "gamma") and col.evaluations % 7 == 0 else None)
-        if chk == "np_window":
+        if chk == "window_session":
+            agg["nsess"] += 1
+            agg["nsess_req"] += stats.get("n", 0)
+            agg["nsess_rep"] += stats.get("repeats", 0)
+            agg["gamma_rel"] = max(agg["gamma_rel"], stats.get("worst_rel", 0.0))
+        elif chk == "np_window":
             agg["neg"] += stats.get("neg_from_numpy", 0)
             agg["min"] = min(agg["min"], stats.get("min", 0.0))
             agg["nwin"] += stats.get("n", 0)
@@ -587,10 +805,11 @@ def run(tier: str, seed: int) -> dict:
             col.fail(clause, c, msg)
     col.note(f"windows: {agg['nwin']} (window, width) evaluations; negative samples excused because numpy's own window is negative there: {agg['neg']} (most negative {agg['min']:.3g}; Blackman end points, numpy.blackman itself returns -1.4e-17)")
     col.note(f"GammaWindow: {agg['ngam']} (order, peak, width) evaluations; worst relative deviation from the closed form {agg['gamma_rel']:.2e}; widths where the literal reading |argmax - peak*width| <= 1 does not hold (fractional peak*width, arg-max = floor(peak*width) - 1): {agg['literal']} (note only)")
-    col.note(f"circshift_fourier: worst |ifft(out) - roll(ifft(in))| / max|x| = {agg['circ']:.2e} (tolerance 1e-9)")
+    col.note(f"window sessions: {agg['nsess']} sessions (4 numpy-shaped windows, GammaWindow orders 4/2/1) with {agg['nsess_req']} requests, {agg['nsess_rep']} of them for a width already requested in the session (same object twice in a row, interleaved, fresh objects, every alias via the factory, > 64 distinct widths in between); every answer checked against all window clauses, earlier answers re-read at the end, and requests repeated after overwriting the returned arrays")
+    col.note(f"circshift_fourier: every case makes the call twice on equal inputs; worst |ifft(out) - roll(ifft(in))| / max|x| = {agg['circ']:.2e} (tolerance 1e-9)")
     return col.result(
-        rule="one case = a block of consecutive widths of one window (each width is evaluated; blocks of <= 256), one circshift_fourier call (segment seed, length, start_idx, dft_size int|None|omitted, shift, copy True|False|omitted, dtype, shift type), or one gauss_quant / angular grid; non-trivial: block reaches width >= 2; circshift with non-empty segment, shift % D != 0; grids non-empty",
-        bound="BOUNDED: widths 0..4096 for the four numpy-shaped windows (all), GammaWindow orders 1..6,8 x peaks {0.5,0.75,0.9 (arg-max), 0.1,0.25,0.6,0.99 (values only)} x widths 0..2048 (quick: 0..330, 1000..1030, 2019..2048) and ..4096; values clause for width >= 2; circshift_fourier: integer-valued shifts in [-3D-2, 3D+2], D <= 129, 0 <= start_idx < D (given D) or <= 64 (defaulted), 1 <= len <= min(D,64), dtypes c128/c64/f64/f32; gauss_quant on ~2.5e3 (quick) / 2.5e4 (thorough) probabilities, oracle mpmath 40 digits",
+        rule="one case = a block of consecutive widths of one window (each width is evaluated; blocks of <= 256), one window session (a list of (how, width) requests to one window function: same object / fresh object / alias factory; non-trivial when a width >= 2 is requested more than once), one circshift_fourier call made twice (segment seed, length, start_idx, dft_size int|None|omitted, shift, copy True|False|omitted, dtype, shift type), or one gauss_quant / angular grid; non-trivial: block reaches width >= 2; circshift with non-empty segment, shift % D != 0; grids non-empty",
+        bound="BOUNDED: widths 0..4096 for the four numpy-shaped windows (all), 3 sessions per window function (7 functions: 4 numpy-shaped, GammaWindow (4,0.75), (2,0.5), (1,0.25)) of 40-300 requests on widths 0..89 (thorough 0..299), {1,2,3,7,8,25,400,401} and 3 (12) seeded widths < 600 (3000), gauss_quant probabilities asked twice, GammaWindow orders 1..6,8 x peaks {0.5,0.75,0.9 (arg-max), 0.1,0.25,0.6,0.99 (values only)} x widths 0..2048 (quick: 0..330, 1000..1030, 2019..2048) and ..4096; values clause for width >= 2; circshift_fourier: integer-valued shifts in [-3D-2, 3D+2], D <= 129, 0 <= start_idx < D (given D) or <= 64 (defaulted), 1 <= len <= min(D,64), dtypes c128/c64/f64/f32; gauss_quant on ~2.5e3 (quick) / 2.5e4 (thorough) probabilities, oracle mpmath 40 digits",
         assumptions=ASSUMPTIONS,
     )
 
